@@ -551,6 +551,43 @@ def load_cases(paths):
 
 # ----------------------------------------------------------------------------- entry
 
+def probe_forward_through_send(ctx):
+    """recorded finding D24: a callback that forwards its whole **kwargs to a child event with
+    `self.send(name, **kwargs)` gets a TypeError, because the injected built-in `event` collides with
+    the parameter name of `send` (the event-method style `self.nxt(**kwargs)` works)."""
+    import warnings
+    from framework import known_findings
+    from statemachine import State, StateMachine
+    with warnings.catch_warnings():
+        warnings.simplefilter("ignore")
+
+        class M(StateMachine):
+            s0 = State(initial=True)
+            s1 = State()
+            s2 = State(final=True)
+            go = s0.to(s1)
+            nxt = s1.to(s2)
+
+            def on_go(self, **kwargs):
+                self.send("nxt", **kwargs)
+    try:
+        sm = M()
+        sm.send("go", x=1)
+        failed = sm.current_state.id != "s2"
+        what = f"ended in {sm.current_state.id}"
+    except TypeError as e:
+        failed, what = True, f"TypeError: {e}"
+    if not failed:
+        return
+    known = [k for k in known_findings("C07") if k.get("status") == "known"
+             and k.get("exclusion") == "forward-kwargs-through-send"]
+    if known:
+        ctx.known_printed.append(known[0]["what"] + f" [{what}]")
+    else:
+        rp = ctx.write_replay("d24_forward_kwargs_through_send.txt", what + "\n")
+        ctx.violation(rp, "forwarding **kwargs through sm.send raises TypeError")
+
+
 def run(ctx):
     lean_obligations(ctx)
     b = subprocess.run(["lake", "build", "drv_bind"], cwd=LEAN, capture_output=True, text=True)
@@ -668,4 +705,5 @@ def run(ctx):
             return done()
     st.t["machines"] = round(time.time() - t0, 2)
     st.inc("mach:scenarios", i)
+    probe_forward_through_send(ctx)
     done()
